@@ -616,6 +616,23 @@ func (in *Interp) evalBuiltin(name string, x *ast.CallExpr, st *State) []evalRes
 		}
 		return out
 	}
+	if name == "append" && in.appendHook != nil {
+		curm := []evalMulti{{st: st}}
+		for _, a := range x.Args {
+			var next []evalMulti
+			for _, c := range curm {
+				for _, r := range in.eval(a, c.st) {
+					next = append(next, evalMulti{st: r.st, vs: append(append([]Val{}, c.vs...), r.v)})
+				}
+			}
+			curm = next
+		}
+		for _, c := range curm {
+			in.appendHook(c.st, x, c.vs)
+			out = append(out, evalRes{c.st, vTop})
+		}
+		return out
+	}
 	cur := []*State{st}
 	for _, a := range x.Args {
 		var next []*State
